@@ -1,11 +1,11 @@
 use rusty_common::*;
 use rusty_parser::{
-    ConditionalBlock, DoLoop, DoLoopConditionKind, DoLoopConditionPosition, Expression,
-    ExpressionPos, ExpressionType, ForLoop, HasExpressionType, Statements,
+    BareName, ConditionalBlock, DoLoop, DoLoopConditionKind, DoLoopConditionPosition, Expression,
+    ExpressionPos, ExpressionType, ForLoop, HasExpressionType, Name, Statements, TypeQualifier,
 };
 use rusty_variant::Variant;
 
-use super::{Instruction, InstructionGenerator, Visitor};
+use super::{Instruction, InstructionGenerator, RootPath, Visitor};
 use crate::RuntimeError;
 
 impl InstructionGenerator {
@@ -27,6 +27,40 @@ impl InstructionGenerator {
         self.generate_expression_instructions(counter_var.clone().at_pos(pos));
     }
 
+    /// The name of a hidden variable of a FOR loop (no program can spell it).
+    /// The upper bound and the step of a FOR loop live in such variables of the
+    /// current scope, so that leaving the loop body by any kind of jump
+    /// (GOTO, EXIT SUB, RESUME label...) leaves nothing behind.
+    fn for_loop_hidden_variable(kind: &str, q: TypeQualifier, pos: Position) -> Name {
+        Name::qualified(
+            BareName::new(format!("for:{}:{}:{}", kind, pos.row(), pos.col())),
+            q,
+        )
+    }
+
+    fn store_hidden_variable(&mut self, name: &Name, pos: Position) {
+        self.push(
+            Instruction::VarPathName(RootPath {
+                name: name.clone(),
+                shared: false,
+            }),
+            pos,
+        );
+        self.push(Instruction::CopyAToVarPath, pos);
+    }
+
+    fn load_hidden_variable(&mut self, name: &Name, pos: Position) {
+        self.push(
+            Instruction::VarPathName(RootPath {
+                name: name.clone(),
+                shared: false,
+            }),
+            pos,
+        );
+        self.push(Instruction::CopyVarPathToA, pos);
+        self.push(Instruction::PopVarPath, pos);
+    }
+
     pub fn generate_for_loop_instructions(&mut self, f: ForLoop, pos: Position) {
         let ForLoop {
             variable_name:
@@ -40,6 +74,10 @@ impl InstructionGenerator {
             statements,
             ..
         } = f;
+        let counter_qualifier = match counter_var_name.expression_type() {
+            ExpressionType::BuiltIn(q) => q,
+            _ => panic!("FOR counter should be a built-in type, linter should have caught this"),
+        };
         // lower bound to A
         self.generate_expression_instructions_casting(
             lower_bound,
@@ -52,85 +90,101 @@ impl InstructionGenerator {
             upper_bound,
             counter_var_name.expression_type(),
         );
-        // A to C (upper bound to C)
-        self.push(Instruction::CopyAToC, pos);
+        // A to the hidden upper bound variable
+        let upper_bound_name = Self::for_loop_hidden_variable("to", counter_qualifier, pos);
+        self.store_hidden_variable(&upper_bound_name, pos);
         // load the step expression
         match step {
             Some(s) => {
                 let step_pos = s.pos();
+                let step_qualifier = match s.expression_type() {
+                    ExpressionType::BuiltIn(q) => q,
+                    _ => panic!("FOR step should be a built-in type, linter should have caught this"),
+                };
                 // load step to A
                 self.generate_expression_instructions(s);
-                // A to D (step is in D)
-                self.push(Instruction::CopyAToD, pos);
+                // A to the hidden step variable
+                let step_name = Self::for_loop_hidden_variable("step", step_qualifier, pos);
+                self.store_hidden_variable(&step_name, pos);
                 // is step = 0 ?
-                self.push_load(Variant::VInteger(0), pos);
                 self.push(Instruction::CopyAToB, pos);
-                self.push(Instruction::CopyDToA, pos);
+                self.push_load(Variant::VInteger(0), pos);
                 self.push(Instruction::Equal, pos);
                 self.jump_if_false("non-zero-step", pos);
                 // Zero step
                 self.push(Instruction::Throw(RuntimeError::ForLoopZeroStep), step_pos);
                 self.label("non-zero-step", pos);
-                self.generate_for_loop_body_instructions(&counter_var_name, statements, true, pos);
+                self.generate_for_loop_body_instructions(
+                    &counter_var_name,
+                    statements,
+                    &upper_bound_name,
+                    Some(&step_name),
+                    pos,
+                );
             }
             None => {
-                self.push_load(Variant::VInteger(1), pos);
-                // A to D (step is in D)
-                self.push(Instruction::CopyAToD, pos);
-                self.generate_for_loop_body_instructions(&counter_var_name, statements, false, pos);
+                self.generate_for_loop_body_instructions(
+                    &counter_var_name,
+                    statements,
+                    &upper_bound_name,
+                    None,
+                    pos,
+                );
             }
         }
     }
 
     /// Generates the loop test, the body (once) and the increment.
-    /// If the step can be negative, its sign is tested on every iteration
+    /// If there is a step, it can be negative: its sign is tested on every iteration
     /// in order to pick the direction of the comparison.
     fn generate_for_loop_body_instructions(
         &mut self,
         counter_var_name: &Expression,
         statements: Statements,
-        can_be_negative: bool,
+        upper_bound_name: &Name,
+        step_name: Option<&Name>,
         pos: Position,
     ) {
         // loop point
         self.label("for-loop", pos);
-        if can_be_negative {
+        if let Some(step_name) = step_name {
             // is step < 0 ?
             self.push_load(Variant::VInteger(0), pos);
             self.push(Instruction::CopyAToB, pos);
-            self.push(Instruction::CopyDToA, pos);
+            self.load_hidden_variable(step_name, pos);
             self.push(Instruction::Less, pos);
             self.jump_if_false("test-positive", pos);
-            // negative step: upper bound from C to B, counter to A
-            self.push(Instruction::CopyCToB, pos);
+            // negative step: upper bound to B, counter to A
+            self.load_hidden_variable(upper_bound_name, pos);
+            self.push(Instruction::CopyAToB, pos);
             self.load_counter(counter_var_name, pos);
             self.push(Instruction::GreaterOrEqual, pos);
             self.jump_if_false("out-of-for", pos);
             self.jump("for-body", pos);
             self.label("test-positive", pos);
         }
-        // upper bound from C to B
-        self.push(Instruction::CopyCToB, pos);
+        // upper bound to B
+        self.load_hidden_variable(upper_bound_name, pos);
+        self.push(Instruction::CopyAToB, pos);
         // counter to A
         self.load_counter(counter_var_name, pos);
         self.push(Instruction::LessOrEqual, pos);
         self.jump_if_false("out-of-for", pos);
         self.label("for-body", pos);
 
-        // push registers
-        self.push(Instruction::PushRegisters, pos);
-
         // run loop body
         self.visit(statements);
 
-        // to be able to resume after an error at the last statement and then pop registers
+        // to be able to resume after an error at the last statement
         self.mark_statement_address();
-        self.push(Instruction::PopRegisters, pos);
 
-        // increment step
+        // increment step: step to B, counter to A
+        match step_name {
+            Some(step_name) => self.load_hidden_variable(step_name, pos),
+            None => self.push_load(Variant::VInteger(1), pos),
+        }
+        self.push(Instruction::CopyAToB, pos);
         self.load_counter(counter_var_name, pos);
-        // copy step from D to B
-        self.push(Instruction::CopyDToB, pos);
         self.push(Instruction::Plus, pos);
         // the step can be of a different type than the counter
         if let ExpressionType::BuiltIn(q) = counter_var_name.expression_type() {
